@@ -41,6 +41,26 @@ CHECKS["C01"] = ("bfs", "model_checking",
     "Trusts the VT semantics of model/screen.rs (ECH = background only, wide-character halves) and unicode-width; image z-order is not modelled; grids beyond the listed sizes are not explored.",
     "DESIGN.md §C01")
 
+CHECKS["C16"] = ("bfs + devdfs (worker subprocesses)", "model_checking",
+    "explicit-state BFS of the real IOQueue against a byte model + deviation-bounded enumeration of kernel answers for the real UnixTerminal on a pty",
+    "(a) BFS over all histories of write/flush/read/consume/consume_with/fill_buf/clear_but_last on the real IOQueue (payload capped) to the depth bound: in every state "
+    "len() must equal the readable bytes, bytes come out in order exactly once, and a drop may remove only whole flush-delimited chunks that have not started. "
+    "(b) The real UnixTerminal runs scripted write/execute/flush/poll/frames_drop sessions on a real pseudo-terminal while hook H2 lets the harness answer every "
+    "select/write/read and own the clock; ALL schedules with at most 2 (3; short sessions 3 (4)) departures from the cooperative answer (short write of 1 / half / len-1 bytes, EAGAIN, EINTR, "
+    "withheld or delayed writability) are executed to completion, for every crash point of every session; the bytes accepted by the tty must be the written chunks in order, whole, "
+    "with only not-yet-started chunks missing after frames_drop.",
+    "Kernel model (write accepts a prefix, select never invents readiness); encoder output taken as given (C05); sessions and payload sizes are the listed ones; more deviations than the bound are not explored.",
+    "DESIGN.md §C16")
+CHECKS["C17"] = ("devdfs (worker subprocesses)", "fault_enumeration",
+    "deviation-bounded enumeration of environment events (wake, SIGWINCH, SIGTERM, input, hang-up) at every system-call boundary and of every crash point, real UnixTerminal on a pty",
+    "Same explorer as C16(b). In addition a waker call, SIGWINCH, SIGTERM, the next input bytes or a hang-up may land before ANY select/write/read or between the signal, waker and input "
+    "phases of the poll loop (hook points), each costing one deviation; polls use timeouts 0, 5 ms (virtual clock) and infinite; the terminal is released after every prefix of every session. "
+    "Oracle: a wake is followed by a Wake event from the current or a later poll and never blocks a poll for ever; SIGWINCH yields a Resize; SIGTERM yields the quit error; input bytes come out "
+    "as the events a reference decoder gives, in order; no quit without cause; after release tcgetattr equals the saved settings and, if the tty kept accepting writes, the closing sequence "
+    "(cursor visible, mouse modes off) was delivered. Every failing schedule is replayed twice and must fail identically.",
+    "Kernel model; signals raised synchronously on the polling thread; peer answers DA1 and keeps draining (fairness); cross-source event order within one select round is not judged.",
+    "DESIGN.md §C17")
+
 PENDING = {}
 ALL = ["C%02d" % i for i in range(1, 21)]
 
